@@ -11,6 +11,7 @@ import (
 )
 
 type Locker = sync.Locker
+
 // Pool mirrors sync.Pool deterministically: inside an exploration it is a LIFO free list (every Put is
 // found by the next Get — the most adversarial reuse, and reproducible); outside it is the real sync.Pool.
 type Pool struct {
@@ -44,6 +45,7 @@ func (p *Pool) Put(x any) {
 	vsched.Point("pool.put")
 	p.items = append(p.items, x)
 }
+
 type Map = sync.Map
 
 // Mutex mirrors sync.Mutex.
